@@ -1,3 +1,4 @@
 -- root of the library: importing the audit modules pulls in every model, lemma, bridge and property file
 import LapyVerif.Audit.C01
 import LapyVerif.Audit.C02
+import LapyVerif.Audit.C06
